@@ -780,7 +780,12 @@ class VarsManager(object):
         for name in self.complex_vars:
             self.std_polar(name)
 
-    def standard_complex(self):
+    def standard_complex(self, bounded=()):
+        """
+        Bring the free polar complex variables into the standard form (r >= 0, -pi <= phi < pi).
+
+        :param bounded: names with a range that is not registered in ``bnd_dic`` (any more), e.g. the ``bounds_dict`` of a fit that has already removed its bound transforms. A complex variable with such a part is left as it is, like one with a registered bound.
+        """
         for k, v in self.complex_vars.items():
             ## TODO complex with constrains
             if isinstance(v, list):
@@ -801,6 +806,8 @@ class VarsManager(object):
             if k + "r" in self.bnd_dic:
                 has_constrains = True
             if k + "i" in self.bnd_dic:
+                has_constrains = True
+            if k + "r" in bounded or k + "i" in bounded:
                 has_constrains = True
             if has_constrains:
                 continue
